@@ -58,7 +58,9 @@ def _mk_predicate(built, fdesc, lev, dep_names, dep_levels, width):
             return cols in accepted
     else:
         def pred(*args):
-            cols = tuple(tuple(a[k] for k in sorted(a)) for a in args)
+            # keys -(width-1)..0, oldest first; works for the documented dict and for
+            # the list [current, previous, ...] SMGen's core passes (a[0], a[-1], ...)
+            cols = tuple(tuple(a[k] for k in range(-(width - 1), 1)) for a in args)
             check_domain(cols)
             return cols in accepted
     return pred
